@@ -509,6 +509,9 @@ def C09_fallbacks(ctx, rid, core):
     ctx.inst(rid, "scan", True, "scanned %d formatter functions" % sum(1 for n in pf if n.startswith(FMT)), None)
 
 
+_CLOSURE_OWNER = {}
+
+
 def C09_comment_fields(ctx, rid, core):
     ctx.rule(rid, "wherever a printer unwraps a Commented<T> member (reads .node) it also emits .leading and .trailing, or is guarded by has_comments() diverting to a printer that does", floor=6)
     pf = printer_fns(core)
@@ -552,9 +555,11 @@ def C09_comment_fields(ctx, rid, core):
                     for gg in g:
                         pass
                     # the closure is an argument of `<collection>.iter().map(closure)`: find that call in the enclosing function
-                    for y in H.walk(f["body"]):
-                        if H.kind(y) == "MethodCall" and any(H.strip(a_) is n for a_ in y.get("args", [])):
-                            it_ = H.strip(y["recv"])
+                    if id(f) not in _CLOSURE_OWNER:
+                        _CLOSURE_OWNER[id(f)] = {id(H.strip(a_)): y for y in H.walk(f["body"]) if H.kind(y) == "MethodCall" for a_ in y.get("args", []) if H.kind(H.strip(a_)) == "Closure"}
+                    y = _CLOSURE_OWNER[id(f)].get(id(n))
+                    if y is not None:
+                        it_ = H.strip(y["recv"])
                 while it_ is not None and H.kind(it_) == "MethodCall":
                     it_ = H.strip(it_["recv"])
                 coll = H.path_local(it_) if it_ is not None else None
@@ -600,7 +605,19 @@ def C09_single_members(ctx, rid, core):
 
     ORG = {k: origins(f) for k, f in fns.items()}
 
+    _memo = {}
+    _calls_of = {}
+    for cname, cf in fns.items():
+        for n in H.walk(cf["body"]):
+            if H.kind(n) == "Call" and n.get("def") in fns:
+                _calls_of.setdefault(n["def"], []).append((cname, n))
+
     def resolve(fname, local, depth=0):
+        if (fname, local) not in _memo:
+            _memo[(fname, local)] = _resolve(fname, local, depth)
+        return _memo[(fname, local)]
+
+    def _resolve(fname, local, depth=0):
         o = ORG.get(fname, {}).get(local)
         if o is None:
             return None
@@ -610,14 +627,13 @@ def C09_single_members(ctx, rid, core):
             return None
         # a parameter: look at the call sites in the other printers
         found = set()
-        for cname, cf in fns.items():
-            for n in H.walk(cf["body"]):
-                if H.kind(n) == "Call" and n.get("def") == fname and o[1] < len(n["args"]):
-                    l = H.path_local(n["args"][o[1]])
-                    if l is not None:
-                        r = resolve(cname, l, depth + 1)
-                        if r:
-                            found.add(r)
+        for cname, n in _calls_of.get(fname, []):
+            if o[1] < len(n["args"]):
+                l = H.path_local(n["args"][o[1]])
+                if l is not None:
+                    r = resolve(cname, l, depth + 1)
+                    if r:
+                        found.add(r)
         return sorted(found)[0] if len(found) == 1 else None
 
     reads = {}
